@@ -33,6 +33,7 @@ inductive Err where
   | zeroDiv         -- division by zero (empty equilibrium feed, moisture content 1, zero MW)
   | singular        -- numpy.linalg.LinAlgError / no exact solution
   | shape           -- operands of different lengths
+  | noConv          -- the fixed-point iteration of `balance='composition'` did not stop within the iteration cap
   deriving Repr, DecidableEq, Inhabited
 
 def Err.toString : Err → String
@@ -41,6 +42,7 @@ def Err.toString : Err → String
   | .zeroDiv => "zerodiv"
   | .singular => "singular"
   | .shape => "shape"
+  | .noConv => "noconv"
 
 abbrev Vec := List Rat
 
@@ -382,33 +384,42 @@ def chemicalSplits (n : Nat) (a : Vec) (b mixed : Option Vec) : Vec :=
 def dot (r x : List Rat) : Rat := sumL (List.zipWith (· * ·) r x)
 def matVec (A : List (List Rat)) (x : List Rat) : List Rat := A.map (fun r => dot r x)
 
-/-- Gauss–Jordan elimination on the augmented matrix (exact arithmetic, first non-zero pivot).
-No property of it is assumed anywhere: `solveChecked` verifies its answer. -/
-def gaussJordan (k : Nat) (A : List (List Rat)) (b : List Rat) : Option (List Rat) := Id.run do
-  let mut M : Array (Array Rat) := (A.zip b).toArray.map (fun (r, bi) => (r ++ [bi]).toArray)
-  if M.size ≠ k then return none
-  for c in [0:k] do
-    -- find a pivot row at or below c
-    let mut piv : Option Nat := none
-    for r in [c:k] do
-      if piv.isNone && (M[r]!)[c]! != 0 then piv := some r
-    match piv with
-    | none => return none
-    | some r =>
-      let rowr := M[r]!
-      let rowc := M[c]!
-      M := (M.set! r rowc).set! c rowr
-      let pv := (M[c]!)[c]!
-      let prow := (M[c]!).map (· / pv)
-      M := M.set! c prow
-      for r2 in [0:k] do
-        if r2 ≠ c then
-          let f := (M[r2]!)[c]!
-          if f != 0 then
-            M := M.set! r2 (Array.zipWith (fun x y => x - f * y) (M[r2]!) prow)
-  return some (M.toList.map (fun r => r[k]!))
+/-- one equation `coefficients · x = right-hand side` -/
+abbrev Row := List Rat × Rat
 
-/-- a solution of `A x = b`, returned only if it checks exactly -/
+def rowHead (r : Row) : Rat := r.1.headD 0
+
+/-- split off the first row whose leading coefficient is non-zero (the pivot rule), keeping the order of the others -/
+def findPivot : List Row → Option (Row × List Row)
+  | [] => none
+  | r :: rs =>
+    if rowHead r ≠ 0 then some (r, rs)
+    else match findPivot rs with
+      | none => none
+      | some (p, others) => some (p, r :: others)
+
+/-- eliminate the leading unknown of `r` with the pivot row `p` -/
+def elimRow (p r : Row) : Row :=
+  (List.zipWith (fun x y => x - rowHead r / rowHead p * y) r.1.tail p.1.tail, r.2 - rowHead r / rowHead p * p.2)
+
+/-- Gaussian elimination with back substitution on `k` unknowns (exact arithmetic): pick the first row with a
+non-zero leading coefficient, eliminate that unknown from the other rows, solve the smaller system, substitute back.
+Proved sound and — for systems whose homogeneous part has only the zero solution — complete in
+`Lemmas/Separations.lean` (`solveRec_sound`, `solveRec_complete`). -/
+def solveRec : Nat → List Row → Option (List Rat)
+  | 0, M => if M.all (fun r => r.2 == 0) then some [] else none
+  | k + 1, M =>
+    match findPivot M with
+    | none => none
+    | some (p, others) =>
+      match solveRec k (others.map (elimRow p)) with
+      | none => none
+      | some xs => some ((p.2 - dot p.1.tail xs) / rowHead p :: xs)
+
+def gaussJordan (k : Nat) (A : List (List Rat)) (b : List Rat) : Option (List Rat) := solveRec k (A.zip b)
+
+/-- a solution of `A x = b`; the answer of the elimination is re-checked exactly before it is returned (the check
+is redundant: `solveRec_sound`) -/
 def solveChecked (A : List (List Rat)) (b : List Rat) : Option (List Rat) :=
   match gaussJordan b.length A b with
   | some x => if matVec A x = b ∧ x.length = b.length then some x else none
@@ -440,5 +451,103 @@ def materialBalance (m : BalIn) : Except Err (List Vec) :=
 /-- inlets − outlets for chemical `c` -/
 def BalIn.residual (m : BalIn) (vin' : List Vec) (c : Nat) : Rat :=
   sumL (vin'.map (·.at c)) + sumL (m.cin.map (·.at c)) - sumL (m.cout.map (·.at c))
+
+/-! ### `material_balance`, `balance='composition'`
+
+The code iterates `x ← solve(A, (A_·x).sum()·f + O)` from `x = 1` until the sum of squared relative changes is
+`≤ 1e-6`, shifting a solution with negative entries up by its most negative entry.  Mirrored with an iteration cap
+(`fuel`): the real loop has none and, when the rank-one map is not a contraction, runs until the floats overflow
+(fixes_proposed/C20-5.md); the adapter stops the real loop at the same cap. -/
+
+structure CompIn where
+  n : Nat
+  idx : List Nat
+  vin : List Vec
+  cin : List Vec
+  cout : List Vec
+  fuel : Nat           -- iteration cap (not in the code)
+  tol : Rat            -- the literal `1e-6`
+
+def rowSum (n : Nat) (v : Vec) : Rat := sumL ((List.range n).map v.at)
+
+def CompIn.A (m : CompIn) : List (List Rat) := m.idx.map (fun c => m.vin.map (·.at c))
+/-- total flow of each variable inlet: `(A_ * x).sum() = s · x` -/
+def CompIn.s (m : CompIn) : List Rat := m.vin.map (rowSum m.n)
+def CompIn.S (m : CompIn) (x : List Rat) : Rat := dot m.s x
+def CompIn.molOut (m : CompIn) (c : Nat) : Rat := sumL (m.cout.map (·.at c))
+def CompIn.Fout (m : CompIn) : Rat := sumL ((List.range m.n).map m.molOut)
+/-- `f = z_mol_out[index]` (`mol_out` itself when the outlets are empty) -/
+def CompIn.f (m : CompIn) (c : Nat) : Rat := if m.Fout = 0 then m.molOut c else m.molOut c / m.Fout
+def CompIn.g (m : CompIn) (c : Nat) : Rat := sumL (m.cin.map (·.at c))
+/-- `sum(g_)`: total flow of the constant inlets -/
+def CompIn.G (m : CompIn) : Rat := sumL ((List.range m.n).map m.g)
+/-- `b = (A_ * x_guess).sum()*f + O`, `O = sum(g_)*f - g` -/
+def CompIn.rhs (m : CompIn) (x : List Rat) : List Rat :=
+  m.idx.map (fun c => m.S x * m.f c + (m.G * m.f c - m.g c))
+
+/-- `if infeasibles.any(): x_new -= x_new[infeasibles].min()` -/
+def shiftNeg (x : List Rat) : List Rat × Bool :=
+  let negs := x.filter (· < 0)
+  if negs.isEmpty then (x, false) else (x.map (· - minL negs), true)
+
+def CompIn.step (m : CompIn) (xg : List Rat) : Option (List Rat × Bool) :=
+  (solveChecked m.A (m.rhs xg)).map shiftNeg
+
+/-- `sum(((x_new - x_guess)/denominator)**2)` with `denominator = x_guess`, zeros replaced by 1 -/
+def relChange2 (xn xg : List Rat) : Rat :=
+  sumL (List.zipWith (fun a b => ((a - b) / (if b = 0 then 1 else b)) * ((a - b) / (if b = 0 then 1 else b))) xn xg)
+
+structure CompOut where
+  x : List Rat          -- the factors applied
+  xPrev : List Rat      -- the guess of the last iteration
+  shifted : Bool        -- the last solution was shifted
+  iterations : Nat
+  vin : List Vec        -- new variable inlets
+  deriving Repr, DecidableEq
+
+def CompIn.loop (m : CompIn) : Nat → List Rat → Nat → Except Err (List Rat × List Rat × Bool × Nat)
+  | 0, _, _ => .error .noConv
+  | fuel + 1, xg, it =>
+    match m.step xg with
+    | none => .error .singular
+    | some (xn, sh) =>
+      if relChange2 xn xg > m.tol then m.loop fuel xn (it + 1) else .ok (xn, xg, sh, it + 1)
+
+def compositionBalance (m : CompIn) : Except Err CompOut :=
+  if m.vin.length ≠ m.idx.length then .error .shape
+  else match m.loop m.fuel (List.replicate m.idx.length 1) 0 with
+    | .error e => .error e
+    | .ok (x, xp, sh, it) => .ok { x := x, xPrev := xp, shifted := sh, iterations := it, vin := scaleInlets m.n x m.vin }
+
+/-! ### aliasing: the feed object is one of the outlets
+
+`partition(feed, top, bottom, …)` keeps a live reference `feed_mol = feed.mol` and writes the outlets in place.
+* `top is feed`: `top.imol[bottom_chemicals] = 0` erases those flows from the feed before the final
+  `top.mol[:] = feed_mol - bottom.mol`, so the forced-bottom chemicals come out as `−feed` at the top
+  (with no forced-bottom chemical the call works).
+* `bottom is feed`: emptying / writing the bottom destroys the feed; `feed_mol − bottom.mol` is then `0` everywhere:
+  the top comes out empty and the bottom holds only what was written.
+Mirrored as found (fixes_proposed/C20-6.md).  `mix_and_split` is alias-safe (the mixed flow is computed before
+any outlet is written), so its model needs no aliasing argument. -/
+
+inductive Alias where
+  | none | top | bottom
+  deriving Repr, DecidableEq
+
+/-- `partition` (repaired as in C20-1) with the feed object aliased to an outlet -/
+def partitionAliased (p : PartIn) (al : Alias) : Except Err PartOut :=
+  match al with
+  | .none => partition p
+  | .top =>
+    -- the feed seen by the last line has lost its forced-bottom chemicals
+    match partition p with
+    | .error e => .error e
+    | .ok o => .ok { o with top := tab p.n (fun i => (if i ∈ p.botc then 0 else p.feed.at i) - o.bottom.at i) }
+  | .bottom =>
+    -- the feed is emptied together with the bottom before the forced flows are read; the equilibrium flows `mol`
+    -- were copied before.  Forced chemicals read 0; the last line computes `bottom − bottom = 0`.
+    match partition { p with feed := tab p.n (fun i => if i ∈ p.ids then p.feed.at i else 0) } with
+    | .error e => .error e
+    | .ok o => .ok { o with top := tab p.n (fun _ => 0) }
 
 end ThermoVerif.Separations
